@@ -378,6 +378,11 @@ class Engine:
         t = type(op)
         if type(a).__name__ == "Tok" or type(b).__name__ == "Tok":
             raise ModelRaise("Desync")  # a NUMBER token consumed as a raw byte: reader and writer disagree on framing
+        if t is ast.Mod and isinstance(a, str) and not isinstance(a, SStr):
+            # "format" % values with symbolic operands: the text is not the subject (the operands were evaluated already)
+            vals = b if isinstance(b, tuple) else (b,)
+            if any(is_sym(v) or type(v).__module__.startswith("vf.") for v in vals):
+                return "<formatted>"
         if a is None or b is None:
             raise ModelRaise("TypeError", ["unsupported operand type(s): NoneType"], cls=TypeError)
         if not is_sym(a) and not is_sym(b):
